@@ -470,6 +470,10 @@ def gen_impl_text(rng, name, methods):
             "self.0 += 1;", 'let _s = "}"; self.0 -= 1;', "let _c = '{'; self.0 = 0; /* } */", "/* { */ self.0 = 2;",
             'let _r = r#" " } "#; self.0 = 3;', "let _l: Option<&'static str> = None; self.0 = 4;", "if self.0 > 0 { self.0 = 1; } else { self.0 = 2; }",
             "let _b = ' '; let _q = '\\''; self.0 = 5;", "let _m = [',', '}']; self.0 = 6;"])
+        # user documentation on the methods: free text, including comment delimiters (legal inside a line doc comment)
+        if rng.random() < 0.4:
+            lines.append("    /// " + rng.choice(["plain words about %s" % m, "reads `tmp/*/counter.log` and adds", "the sum */ wraps around", "see #[actor] { and }",
+                                                   "a /* balanced */ remark", "quote \" and apostrophe ' inside"]))
         if rng.random() < 0.5:
             lines.append("    pub fn %s(&mut self) { %s }" % (m, body))
         else:
